@@ -381,8 +381,12 @@ func c19Run(r *core.Run) {
 			cfgSvnTooBig = append(cfgSvnTooBig, name)
 			r.Probe("svn_minimum_beyond_16_bits")
 		}
-		if t.Chance(1, 3) {
+		policyFocus := calm && focus == 3
+		if t.Chance(1, 3) || (policyFocus && t.Chance(1, 3)) {
 			fk := t.Draw(5)
+			if policyFocus && t.Chance(1, 3) {
+				fk = 4 // a run that is otherwise in order and whose only defect is a malformed minimum
+			}
 			if !allow(3) && (fk == 1 || fk == 4) {
 				fk = 0
 			}
@@ -786,9 +790,9 @@ func init() {
 		RealStub: map[string]string{"tools/check binary": "real (built with -tags verif: collateral getter reads the simulated PCS from files)", "verify / validate / abi": "real", "disk (config, quote, bundles)": "real files in a per-run temp dir", "network": "simulated PCS through the hook, or the sandbox's sealed network", "trust.SimpleHTTPSGetter": "exercised only in the unreachable-network case"},
 		Runs: func(tier string) int {
 			if tier == "thorough" {
-				return 20000
+				return 30000
 			}
-			return 1200
+			return 2500
 		},
 		Run:       c19Run,
 		MustProbe: []string{"exit_0", "exit_3", "exit_4", "flag_overrides_config_field", "config_sub_policy_absent"},
